@@ -22,7 +22,7 @@ var TokWidth = append([]string{
 	"\u0600", "\u06dd1", "\u0600123", "\u0d4e\u0d15", // Prepend characters: they join the character that FOLLOWS them
 	"\u00a0", "\u3000", // NBSP, ideographic space
 	"\t", "\r",
-	"\x1b[31m", "\x1b[0m", "\x1b[1;32m", "\x1b", "\x1b]0;t\a", "\x7f", "\x00", "\b", // terminal control: to the measure they are ordinary (zero-width control + printable) characters
+	"\x1b[31m", "\x1b[0m", "\x1b[1;32m", "\x1b", "\x1b[", "\x1b[1;3", "x\x1b[", "\x1b]0;t\a", "\x7f", "\x00", "\b", // terminal control: to the measure they are ordinary (zero-width control + printable) characters
 	"\n", "\n\n", "a\nb", "\nq", "q\n",
 	"\u00e9", "\u00df", "\u2192", "\u2502", "\u2503", "|", "+", "\u2501",
 }, TokASCII...)
